@@ -349,6 +349,78 @@ def _sub_repeat(rep, specs, ref):
                      'distinct outcomes', samples=specs[5:8], exhaustive=False)
 
 
+_RELOAD_FAIL = [False]
+
+
+def _sub_reload(rep):
+    """The same function OBJECT built again after its defaults, annotations or code were
+    replaced in place (what a hot reload does): the bytes are those of the function as it is
+    now, i.e. of an equal function object that was never built before."""
+    from sc3.synth.synthdef import SynthDef
+    fail = _RELOAD_FAIL
+
+    def make(defaults, ann, saw=False):
+        # no closure variables: the code objects are interchangeable
+        if saw:
+            def voice(freq=0, amp=0, pan=0):
+                from sc3.synth.ugens import LFSaw, Out
+                if _RELOAD_FAIL[0]:
+                    raise GraphError('planned')
+                Out.ar(0, LFSaw.ar(freq) * amp + pan)
+        else:
+            def voice(freq=0, amp=0):
+                from sc3.synth.ugens import SinOsc, Out
+                if _RELOAD_FAIL[0]:
+                    raise GraphError('planned')
+                Out.ar(0, SinOsc.ar(freq) * amp)
+        voice.__defaults__ = defaults
+        voice.__annotations__ = dict(ann)
+        return voice
+
+    steps = [((220, 0.1), {}, False, False), ((440, 0.2), {}, False, True),
+             ((440, 0.2), {'freq': 'ir'}, False, False), ((1, (2, 3)), {'amp': 'tr'}, False, False),
+             ((5, 6, 7), {}, True, True), ((220, 0.1), {}, False, False),
+             ((220, 0.1), {'amp': 'ar'}, False, False)]
+    one = make(*steps[0][:3])
+    n = 0
+    for k, (d, a, saw, fail_first) in enumerate(steps):
+        one.__code__ = make(d, a, saw).__code__
+        one.__defaults__ = d
+        one.__annotations__ = dict(a)
+        if fail_first:
+            # a build of the object that raises, right before its signature data changes again
+            fail[0] = True
+            try:
+                SynthDef('c20reload', one)
+            except GraphError:
+                pass
+            fail[0] = False
+        n += 1
+        try:
+            got = 'sha1:' + hashlib.sha1(bytes(SynthDef('c20reload', one).as_bytes())).hexdigest()
+        except Exception as e:
+            got = 'EXC:' + type(e).__name__
+        try:
+            exp = 'sha1:' + hashlib.sha1(bytes(SynthDef('c20reload', make(d, a, saw)).as_bytes())).hexdigest()
+        except Exception as e:
+            exp = 'EXC:' + type(e).__name__
+        if got != exp:
+            rep.violation(
+                obligation='C20.reload',
+                what='build #%d of one function object, after its defaults/annotations/code were '
+                     'replaced in place by %r / %r%s, differs from the build of an equal, never '
+                     'built function' % (k + 1, d, a, ' / other code' if saw else ''),
+                input={'step': k, 'defaults': d, 'annotations': a}, observed=got, expected=exp,
+                key='C20.reload:stale', replay={'func': 'reload', 'args': None})
+    rep.bounded(name='reload', function='SynthDef.__init__ + as_bytes',
+                bound='one function object rebuilt %d times, its __defaults__, __annotations__ '
+                      'and __code__ replaced in place between builds, two of the changes preceded '
+                      'by a build of the object that raises' % len(steps),
+                evaluations=2 * n, distinct_nontrivial=n,
+                rule='bytes equal those of a fresh function object with the same code, defaults '
+                     'and annotations', samples=[list(map(repr, s_[:2])) for s_ in steps[:3]])
+
+
 def run_history(hist, good, ref, fb):
     """hist: list of step names ('A', 'B' or a failing build).  -> problem
     dict or None."""
@@ -570,6 +642,8 @@ def main(rep):
                      nexc, nspecs))
     if wants(rep, 'repeat'):
         _sub_repeat(rep, specs, ref)
+    if wants(rep, 'reload'):
+        _sub_reload(rep)
     if wants(rep, 'histories'):
         _sub_histories(rep, specs, ref)
     if wants(rep, 'threads'):
@@ -591,6 +665,8 @@ def replay(case, rep):
         if len(set(outs)) != 1:
             rep.violation(obligation='C20.repeat', what='outcomes differ',
                           input=r['args'], observed=outs, key='C20.repeat:differs')
+    elif r['func'] == 'reload':
+        _sub_reload(rep)
     elif r['func'] == 'history':
         fb = failing_builds()
         specs = corpus(0, 8)
